@@ -56,6 +56,32 @@ ITEMS = [
          requires=[('nonempty_offset_in_range', 'self.0.len() > 0 && self.1 < self.0.len() && self.0.len() <= isize::MAX')],
          ensures=[('element_at_offset_plus_index_modulo_len', 'r == Ok::<Obj, NErr>(self.0@[(self.1 as int + i as int) % (self.0.len() as int)])')],
          props=['C11', 'C10']),
+    # repeat(x): the infinite constant stream
+    Item(id='Repeat', kind='type', source=S, locator='struct Repeat', subst=[(r'#\[derive\([^)]*\)\]\s*', '#[derive(Clone)]\n', 'derives reduced to Clone')]),
+    Item(id='repeat_next', source=S, locator='impl Iterator for Repeat / fn next', wrap='impl Repeat',
+         ensures=[('always_the_element', 'r == Some(Ok::<Obj, NErr>(old(self).0))'), ('unchanged', '*final(self) == *old(self)')], props=['C11']),
+    Item(id='repeat_peek', source=S, locator='impl Stream for Repeat / fn peek', wrap='impl Repeat',
+         ensures=[('agrees_with_next', 'r == Some(Ok::<Obj, NErr>(self.0))')], props=['C11']),
+    Item(id='repeat_len', source=S, locator='impl Stream for Repeat / fn len', wrap='impl Repeat',
+         ensures=[('infinite', 'r is None')], props=['C11']),
+    Item(id='repeat_force', source=S, locator='impl Stream for Repeat / fn force', wrap='impl Repeat',
+         ensures=[('cannot_be_forced', 'r is Err && err_class(r->Err_0) == ErrClass::Value')], props=['C11']),
+    Item(id='repeat_index', source=S, locator='impl Stream for Repeat / fn pythonic_index_isize', wrap='impl Repeat',
+         subst=[(r'\(&self, _: isize\)', '(&self, _i: isize)', 'the verus! macro rejects `_` as a parameter name')],
+         ensures=[('every_index_is_the_element', 'r == Ok::<Obj, NErr>(self.0)')], props=['C11', 'C10']),
+    Item(id='repeat_slice', source=S, locator='impl Stream for Repeat / fn pythonic_slice', wrap='impl Repeat',
+         subst=[(r'Rc::new\(self\.clone\(\)\)', 'stream_rc(self.clone())', 'the unsizing coercion Rc<Repeat> -> Rc<dyn Stream> has no counterpart for the opaque StreamBox')],
+         closures={1: dict(params='x: isize', ret='res: NRes<isize>',
+                           ensures=[('negative_bounds_move_one_further_from_the_end', 'match res { Ok(v) => v == (if x < 0 { x - 1 } else { x as int }), Err(e) => x == isize::MIN && err_class(e) == ErrClass::Index }')])},
+         ensures=[
+             ('a_bound_of_isize_min_is_an_index_error', '(lo == Some(isize::MIN) || hi == Some(isize::MIN)) ==> (r is Err && err_class(r->Err_0) == ErrClass::Index)'),
+             ('both_bounds_from_the_same_end_give_that_many_copies',
+              '(rep_ok(lo, hi) && (rep_bound(lo, 0) < 0) == (rep_bound(hi, -1) < 0)) ==> (r is Ok && r->Ok_0 is List && '
+              'r->Ok_0->List_0@.len() == (if rep_bound(hi, -1) - rep_bound(lo, 0) > 0 { rep_bound(hi, -1) - rep_bound(lo, 0) } else { 0 }))'),
+             ('from_the_end_to_the_front_is_empty', '(rep_ok(lo, hi) && rep_bound(lo, 0) < 0 && rep_bound(hi, -1) >= 0) ==> (r is Ok && r->Ok_0 is List && r->Ok_0->List_0@.len() == 0)'),
+             ('from_the_front_to_the_infinite_end_is_a_stream', '(rep_ok(lo, hi) && rep_bound(lo, 0) >= 0 && rep_bound(hi, -1) < 0) ==> (r is Ok && r->Ok_0 is Stream)'),
+         ],
+         props=['C11', 'C10']),
 ]
 
 GENERATED_SPECS = {"range_bcast.rs": "verus! {\nbroadcast use lemma_range_count_closed_form, lemma_mod_add_reduced;\n}\n",
